@@ -82,7 +82,7 @@ def crash_class(rc, err):
     return "crash:" + kind
 
 
-def exec_plan(flavour, plan_text, want_choices=False, timeout=200):
+def exec_plan(flavour, plan_text, want_choices=False, timeout=700):
     """Run one plan in a fresh process. Returns dict(cls, sig, msg, trace, choices, rc)."""
     d = tempfile.mkdtemp(prefix="vplan_", dir=SCRATCH_ROOT)
     try:
